@@ -37,13 +37,18 @@ import (
 	"fmt"
 	"io"
 	"net"
+	"os"
 	"runtime"
+	"runtime/debug"
+	"runtime/pprof"
 	"strconv"
 	"strings"
 	"sync"
 	"time"
 
 	"github.com/grafana/carbon-relay-ng/aggregator"
+	"github.com/grafana/carbon-relay-ng/destination"
+	"github.com/grafana/carbon-relay-ng/route"
 	"github.com/grafana/carbon-relay-ng/input"
 	"github.com/grafana/carbon-relay-ng/matcher"
 
@@ -81,6 +86,7 @@ type c04case struct {
 	DropAgg bool                 `json:"with_dropraw_aggregator"`
 	Cache   bool                 `json:"aggregator_cache"`
 	lines   []*lineSpec
+	fx      stats // rule effects, from the oracle's point of view (for the evidence)
 }
 
 var plainTok = []string{"foo", "bar", "a", "ab", "aa", "aaa", "srv", "server", "web01", "x", "collectd", "cpu", "0", "o", "zq", "foofoo", "server", "A1"}
@@ -119,7 +125,7 @@ func genName(r *mon.Rng, legacy, m20 string) string {
 			name = "unit=B.mtype=gauge.host=h" + strconv.Itoa(r.Intn(10)) + "." + name
 		}
 	}
-	if r.Chance(1, 15) {
+	if r.Chance(1, 15) && !strings.ContainsAny(name[:strings.IndexByte(name+".", '.')], "=") && !strings.HasPrefix(name, "k_is_v") {
 		name = "." + name // graphite tolerates a leading dot
 		if legacy == "strict" && strings.HasPrefix(name, "..") {
 			name = name[1:]
@@ -252,7 +258,7 @@ func genCase(seed uint64, idx int) *c04case {
 			c.ViaCmd = false
 		}
 	}
-	if len(c.Rules) == 0 || r.Bool() {
+	if len(c.Rules) == 0 || !r.Chance(1, 4) {
 		c.ViaCmd = false
 	}
 	c.DropAgg = r.Bool()
@@ -276,8 +282,22 @@ func genCase(seed uint64, idx int) *c04case {
 			l.WS[3] += " "
 		}
 		l.Raw = []byte(l.WS[0] + l.Name + l.WS[1] + l.Val + l.WS[2] + l.Ts + l.WS[3])
-		out := rw.Apply([]byte(l.Name))
+		out, info := rw.ApplyInfo([]byte(l.Name))
 		l.RwName = string(out)
+		for _, s := range info {
+			if s.Skipped {
+				c.fx.skipped++
+			}
+			if s.Limited {
+				c.fx.limited++
+			}
+			if s.Changed && s.Regex {
+				c.fx.regexChanged++
+			}
+			if s.Changed && !s.Regex {
+				c.fx.literalChanged++
+			}
+		}
 		l.Expected = l.RwName + " " + l.Val + " " + l.Ts
 		l.Changed = l.RwName != l.Name
 		l.Layout = l.WS != [4]string{"", " ", " ", ""}
@@ -395,27 +415,30 @@ func (h *heldAgg) outputs() [][]byte {
 	return append([][]byte(nil), h.got...)
 }
 
-// drain: wait until `queued` more points were taken in, flush, wait for the outputs.
-func (h *heldAgg) drain(queued int, res *mon.Result, what string) {
-	if !h.waitIn(int64(1+queued), res) {
-		res.Inconclusive(fmt.Sprintf("%s: aggregator took in %d of %d queued points within the step bound", what, mon.Counter(h.inKey)-h.base-1, queued))
-	}
-	for round := 0; round < 3; round++ {
+// drain: a sentinel point is queued behind everything the aggregator still
+// holds (its inbox is FIFO) with a timestamp later than all of them, so it is the last
+// thing a flush emits; ticks are sent until the sentinel's own output shows
+// up, at which point every earlier point has been processed and flushed too.
+func (h *heldAgg) drain(res *mon.Result, what string) {
+	h.a.AddMaybe([][]byte{[]byte("c04sentinel.zq"), []byte("1"), []byte("1600000000")}, 1, 1600000000)
+	seen := 0
+	for round := 0; round < 200000; round++ {
 		h.tick <- time.Unix(2000000000, 0)
-		for step := 0; step < 20000; step++ {
-			if len(h.outputs()) >= 1+queued {
-				return
+		for step := 0; step < 4; step++ {
+			outs := h.outputs()
+			for ; seen < len(outs); seen++ {
+				if bytes.Contains(outs[seen], []byte("c04sentinel.zq ")) {
+					return
+				}
 			}
-			if step < 50 {
+			if round < 50 {
 				runtime.Gosched()
 			} else {
-				time.Sleep(200 * time.Microsecond)
-			}
-			if step == 2000 {
-				break // tick again: a flush may have run before the last point was taken in
+				time.Sleep(50 * time.Microsecond)
 			}
 		}
 	}
+	res.Inconclusive(what + ": the aggregator never emitted the sentinel queued behind the lines (step bound)")
 }
 
 func (h *heldAgg) shutdown() {
@@ -445,6 +468,20 @@ type stats struct {
 	skipped, limited, regexChanged, literalChanged                          int
 }
 
+func (s *stats) add(o stats) {
+	s.lines += o.lines
+	s.delivered += o.delivered
+	s.destLines += o.destLines
+	s.aggOut += o.aggOut
+	s.retained += o.retained
+	s.changed += o.changed
+	s.nontrivialLines += o.nontrivialLines
+	s.skipped += o.skipped
+	s.limited += o.limited
+	s.regexChanged += o.regexChanged
+	s.literalChanged += o.literalChanged
+}
+
 func runCase(res *mon.Result, c *c04case, st *stats) {
 	viol := func(sig, msg string, l *lineSpec, extra map[string]interface{}) {
 		w := c.witness(l)
@@ -453,31 +490,77 @@ func runCase(res *mon.Result, c *c04case, st *stats) {
 		}
 		res.Violate(sig, msg, w)
 	}
+	tSec := time.Now()
+	sec := func(name string) {
+		if debugTiming {
+			fmt.Printf("  case %d %s: %.3fs\n", c.Index, name, time.Since(tSec).Seconds())
+		}
+		tSec = time.Now()
+	}
+	setupMu.Lock() // the admin-command tokenizer keeps global state: tables are built one at a time
 	t, _, err := mon.TableFromTOML(c.toml())
 	if err != nil {
+		setupMu.Unlock()
 		// the generator only emits configurations the documentation allows
 		viol("config-rejected", "table could not be built from a documented rewriter configuration: "+err.Error(), nil, map[string]interface{}{"toml": c.toml()})
 		return
 	}
+	sec("TableFromTOML(+lock wait)")
 	log := &mon.Log{}
 	all, _ := matcher.New("", "", "", "", "", "")
 	r1 := mon.NewCaptureRoute(fmt.Sprintf("c04cap1_%d", c.Index), all, log)
 	r2 := mon.NewCaptureRoute(fmt.Sprintf("c04cap2_%d", c.Index), all, log)
 	ep := mon.NewEndpoint(mon.Mode{})
-	defer ep.Close()
 	rkey := fmt.Sprintf("c04r%d", c.Index)
 	t.AddRoute(r1)
-	if err := mon.Apply(t, fmt.Sprintf("addRoute sendAllMatch %s  %s spool=false pickle=false flush=50", rkey, ep.Addr)); err != nil {
-		panic("addRoute: " + err.Error())
+	if c.Index%10 == 9 {
+		// as an operator would (the admin-command tokenizer is slow under -race, hence only one table in ten)
+		if err := mon.Apply(t, fmt.Sprintf("addRoute sendAllMatch %s  %s spool=false pickle=false flush=50", rkey, ep.Addr)); err != nil {
+			panic("addRoute: " + err.Error())
+		}
+	} else {
+		// what that command does internally (imperatives.readDestination + route.NewSendAllMatch); connbuf sized to the case, iobuf varied
+		iobuf := []int{4096, 65536, 300, 2000000}[c.Index%4]
+		dst, err := destination.New(rkey, all, ep.Addr, mon.Scratch(), false, false, 50*time.Millisecond, 10*time.Second, c.NLines+1000, iobuf,
+			10000, 200*1024*1024, 10000, time.Second, 500*time.Microsecond, 10*time.Microsecond)
+		if err != nil {
+			panic(err)
+		}
+		rtNew, err := route.NewSendAllMatch(rkey, all, []*destination.Destination{dst})
+		if err != nil {
+			panic(err)
+		}
+		t.AddRoute(rtNew)
 	}
 	t.AddRoute(r2)
-	defer t.Shutdown()
+	setupMu.Unlock()
+	sec("addRoute")
 	dkey := mon.DestKey(rkey, ep.Addr)
+	defer func() {
+		// Destination.Shutdown closes the connection but leaves its keep-safe janitor running
+		// (2.4 MB reallocated every 10 s per leaked connection): let the relay loop see the
+		// connection die first, which releases it, then shut down. Not part of any verdict.
+		base := mon.Counter(mon.KeyDestDropNoConn(dkey))
+		ep.Down()
+		if rt := t.GetRoute(rkey); rt != nil {
+			for step := 0; step < 20000; step++ {
+				rt.Dispatch([]byte("verifprobe.cleanup 1 1"))
+				if mon.Counter(mon.KeyDestDropNoConn(dkey)) > base {
+					break
+				}
+				time.Sleep(200 * time.Microsecond)
+			}
+		}
+		t.Shutdown()
+	}()
 	rt := t.GetRoute(rkey)
-	if !mon.ProbeOnline(rt.Dispatch, ep, rkey, 400) {
+	ep.WaitAccepted(1, 2000)
+	sec("accepted")
+	if !mon.ProbeOnline(func(b []byte) { rt.Dispatch(b); rt.Flush(); runtime.Gosched(); rt.Flush() }, ep, rkey, 400) {
 		res.Inconclusive(fmt.Sprintf("case %d: destination never came online", c.Index))
 		return
 	}
+	sec("table+probe")
 	d := mon.NewDeltas(mon.KeyDestDropSlowConn(dkey), mon.KeyDestDropNoConn(dkey))
 
 	mAll, err := matcher.New("", "", "", "", "^(.*)$", "")
@@ -504,6 +587,7 @@ func runCase(res *mon.Result, c *c04case, st *stats) {
 		}
 	}
 
+	sec("aggs held")
 	// ---- feed
 	switch c.Mode {
 	case "dispatch":
@@ -591,23 +675,23 @@ func runCase(res *mon.Result, c *c04case, st *stats) {
 		ln.Stop()
 	}
 	st.lines += len(c.lines)
+	sec("feed")
 
 	// ---- drain the consumers
-	nDrop, nRouted := 0, 0
+	nRouted := 0
 	for _, l := range c.lines {
-		if l.Drop {
-			nDrop++
-		} else {
+		if !l.Drop {
 			nRouted++
 		}
 	}
 	for _, h := range aggs {
 		h.release()
 	}
-	agg1.drain(len(c.lines), res, fmt.Sprintf("case %d agg1", c.Index))
+	agg1.drain(res, fmt.Sprintf("case %d agg1", c.Index))
 	if agg2 != nil {
-		agg2.drain(nDrop, res, fmt.Sprintf("case %d agg2", c.Index))
+		agg2.drain(res, fmt.Sprintf("case %d agg2", c.Index))
 	}
+	sec("agg drain")
 	countLines := func() int {
 		n := 0
 		for _, cr := range ep.Conns() {
@@ -630,6 +714,7 @@ func runCase(res *mon.Result, c *c04case, st *stats) {
 	}
 	dropped := int(d.Get(mon.KeyDestDropSlowConn(dkey)) + d.Get(mon.KeyDestDropNoConn(dkey)))
 
+	sec("dest flush")
 	// ---- compare
 	byExpected := map[string]*lineSpec{}
 	byTs := map[string]*lineSpec{}
@@ -740,7 +825,7 @@ func runCase(res *mon.Result, c *c04case, st *stats) {
 				viol(who+":format", "aggregation output is not 'key value ts'", nil, map[string]interface{}{"output": fmt.Sprintf("%q", o)})
 				continue
 			}
-			if string(f[0]) == prefix+"c04primer.zq" {
+			if string(f[0]) == prefix+"c04primer.zq" || string(f[0]) == prefix+"c04sentinel.zq" {
 				continue
 			}
 			st.aggOut++
@@ -780,6 +865,10 @@ func runCase(res *mon.Result, c *c04case, st *stats) {
 		}
 		if n1+n2+nd+na == 0 {
 			undelivered++
+			if undelivered <= 2 {
+				res.Sample(map[string]interface{}{"NOT_DELIVERED_ANYWHERE": fmt.Sprintf("%q", l.Raw), "levels": c.Legacy + "/" + c.M20})
+				fmt.Printf("undelivered: case %d %s/%s %q\n", c.Index, c.Legacy, c.M20, l.Raw)
+			}
 			continue
 		}
 		if l.Drop {
@@ -820,26 +909,13 @@ func runCase(res *mon.Result, c *c04case, st *stats) {
 	for _, h := range aggs {
 		h.shutdown()
 	}
-	// rule effects, from the oracle's point of view (for the evidence)
-	rw, _ := oracle.CompileRules(c.Rules)
-	for _, l := range c.lines {
-		_, info := rw.ApplyInfo([]byte(l.Name))
-		for _, s := range info {
-			if s.Skipped {
-				st.skipped++
-			}
-			if s.Limited {
-				st.limited++
-			}
-			if s.Changed && s.Regex {
-				st.regexChanged++
-			}
-			if s.Changed && !s.Regex {
-				st.literalChanged++
-			}
-		}
-	}
+	sec("compare+shutdown")
+	st.skipped, st.limited, st.regexChanged, st.literalChanged = c.fx.skipped, c.fx.limited, c.fx.regexChanged, c.fx.literalChanged
 }
+
+var setupMu sync.Mutex
+
+var debugTiming = os.Getenv("C04_TIMING") != ""
 
 func maxi(a, b int) int {
 	if a > b {
@@ -849,6 +925,12 @@ func maxi(a, b int) int {
 }
 
 func main() {
+	if pf := os.Getenv("C04_PROF"); pf != "" {
+		f, _ := os.Create(pf)
+		pprof.StartCPUProfile(f)
+		defer pprof.StopCPUProfile()
+	}
+	debug.SetGCPercent(400) // every destination connection allocates ~7 MB of pointer slices; collect less often
 	mon.InitRepo()
 	res := mon.NewResult("C04")
 	res.Rule = "tables generated from (seed,index): validation levels {none,medium,strict}x{none,medium} written as configuration text; 0-4 rewriters (literal with max in {-1,0,1,2,3,7}, /regex/ with ${n}, $n, named groups, empty matches; not-clause absent / substring / /regex/) added through [[rewriter]] sections or addRewriter init commands; lines valid by construction for the chosen levels: names over a small token set with repeats (plus metrics2.0 names, leading dots, empty nodes, regex/template metacharacters, 8-bit bytes where the level allows), 30 value spellings, 9 timestamp spellings, whitespace layouts from single blanks to tabs / runs / leading / trailing / VT FF CR. two thirds of the tables are fed by Table.Dispatch from one reused arena (overwritten with 0xAA after every call), one third by the real Listener+Plain handler over 1-3 concurrent TCP connections. non-trivial table = at least 10 lines whose name was changed by rewriting AND whose layout was not canonical AND that were seen byte-identical by both capture routes, the destination endpoint and the held aggregator"
@@ -856,28 +938,55 @@ func main() {
 	res.Assume("lines missing at the destination are C05/C06's subject: here they make the run inconclusive unless counted as dropped")
 	res.Assume("the aggregator is observed through its output key (name it processed), timestamp and value formatted with %f")
 	n := mon.N(200, 5000)
+	if v, err := strconv.Atoi(os.Getenv("C04_LIMIT")); err == nil && v > 0 && v < n {
+		n = v // monitor validation against mutants only: fewer tables (the floors then fail unless something fired)
+	}
 	var st stats
+	var mu sync.Mutex
 	ran, nontrivial := 0, 0
+	jobs := make(chan int)
+	var wg sync.WaitGroup
+	for w := 0; w < 4; w++ {
+		wg.Add(1)
+		go func() {
+			defer wg.Done()
+			for i := range jobs {
+				c := genCase(mon.Seed(), i)
+				res.LogCase("case %d mode=%s legacy=%s m20=%s rules=%+v lines=%d", i, c.Mode, c.Legacy, c.M20, c.Rules, c.NLines)
+				var cs stats
+				tCase := time.Now()
+				runCase(res, c, &cs)
+				if el := time.Since(tCase); debugTiming {
+					fmt.Printf("case %d (%s) took %.2fs\n", i, c.Mode, el.Seconds())
+				}
+				res.Eval(1)
+				mu.Lock()
+				st.add(cs)
+				ran++
+				if cs.nontrivialLines >= 10 {
+					nontrivial++
+					res.NonTrivial(fmt.Sprintf("case/%d", i))
+				}
+				mu.Unlock()
+				if i < 3 {
+					l := c.lines[len(c.lines)/2]
+					res.Sample(map[string]interface{}{"case": c.Index, "mode": c.Mode, "levels": c.Legacy + "/" + c.M20, "rewriters": c.Rules,
+						"example_line": fmt.Sprintf("%q", l.Raw), "oracle": fmt.Sprintf("%q", l.Expected)})
+				}
+			}
+		}()
+	}
+	only := os.Getenv("C04_ONLY") // monitor validation only: "tcp" or "dispatch"
 	for i := 0; i < n; i++ {
-		if !mon.Mine(i) {
+		if only != "" && (i%3 == 2) != (only == "tcp") {
 			continue
 		}
-		c := genCase(mon.Seed(), i)
-		res.LogCase("case %d mode=%s legacy=%s m20=%s rules=%+v lines=%d", i, c.Mode, c.Legacy, c.M20, c.Rules, c.NLines)
-		before := st.nontrivialLines
-		runCase(res, c, &st)
-		res.Eval(1)
-		ran++
-		if st.nontrivialLines-before >= 10 {
-			nontrivial++
-			res.NonTrivial(fmt.Sprintf("case/%d", i))
-		}
-		if ran <= 3 {
-			l := c.lines[len(c.lines)/2]
-			res.Sample(map[string]interface{}{"case": c.Index, "mode": c.Mode, "levels": c.Legacy + "/" + c.M20, "rewriters": c.Rules,
-				"example_line": fmt.Sprintf("%q", l.Raw), "oracle": fmt.Sprintf("%q", l.Expected)})
+		if mon.Mine(i) {
+			jobs <- i
 		}
 	}
+	close(jobs)
+	wg.Wait()
 	res.Count("lines_fed", st.lines)
 	res.Count("capture_route_deliveries", st.delivered)
 	res.Count("destination_lines_received", st.destLines)
